@@ -10,7 +10,8 @@ From Coq Require Import List NArith ZArith Bool.
 From Coq Require String.
 From NSQV Require Import gen.Consts gen.WireLayout model.Judge model.Guid model.Relay model.Wire
   proofs.GuidProofs proofs.RelayProofs proofs.WireProofs proofs.WireLayoutProofs
-  gen.PoolUse model.Pool proofs.PoolProofs.
+  gen.PoolUse model.Pool proofs.PoolProofs
+  gen.WriteLock model.ConnWriter proofs.ConnWriterProofs proofs.ConnWriterSrc.
 Import ListNotations.
 Open Scope Z_scope.
 
@@ -317,3 +318,72 @@ Theorem C07_source_pool_discipline :
   pu_put_calls = ["b.Reset"; "bp.Put"]%string /\ pu_get_is_pool_get = true.
 Proof. exact Pool_source_discipline. Qed.
 Print Assumptions C07_source_pool_discipline.
+
+(* ---------------------------------------------------------------- the connection's shared output writer *)
+(* The buffered writer of a client connection is written by several goroutines: the
+   consumer's messagePump (message frames, heartbeats, the force flush when the client is
+   not ready, the flush on the output-buffer-timeout ticker) and the IOLoop (the response or
+   error frame of every command the same connection sends).  Whatever number of goroutines,
+   whatever their programs of sends and flushes, however their steps interleave and however
+   the transport cuts a flush into pieces and blocks between them: what the transport has
+   been handed, followed by what a flush in progress has still to hand over and what is
+   buffered, is the concatenation of whole frames; each goroutine's frames are in it exactly
+   once and in that goroutine's order; no flush ever finds the buffer changed under it (no
+   short write); and once nobody holds the lock and the buffer is empty the transport has
+   exactly the frames.  [src_locks] is the lock discipline read from the Go source
+   (gen/WriteLock.v, below): every site holds writeLock around its use of the writer. *)
+Theorem C07_connection_writes_serialised : forall (progs : nat -> list wjob) (sched : list (nat * nat)),
+  let s := wrun src_locks (winit progs) sched in
+  (w_wire s ++ skipn (sent_of s) (w_buf s))%list = List.concat (map snd (w_log s)) /\
+  (forall t, exists k, logged t (w_log s) = firstn k (frames_of (progs t))) /\
+  (forall t, t_jobs (w_threads s t) = [] -> logged t (w_log s) = frames_of (progs t)) /\
+  (forall t, t_failed (w_threads s t) = false) /\
+  (w_lock s = None -> w_buf s = [] -> w_wire s = List.concat (map snd (w_log s))).
+Proof. exact ConnWriter_serialised_source. Qed.
+Print Assumptions C07_connection_writes_serialised.
+
+(* not vacuous: the pump's timed flush of a buffered message frame is four bytes into the
+   transport when the IOLoop wants to answer a command; it waits for the lock, and its frame
+   follows the message frame *)
+Example C07_ex_conn_writer_locked :
+  let s := wrun (fun _ => true) (winit ex_wprogs) ex_wsched in
+  w_wire s = (ex_wmsg_frame ++ ex_wok_frame)%list /\ w_buf s = [] /\ w_lock s = None /\
+  t_jobs (w_threads s 0%nat) = [] /\ t_jobs (w_threads s 1%nat) = [] /\
+  w_log s = [(0%nat, ex_wmsg_frame); (1%nat, ex_wok_frame)].
+Proof. exact ConnWriter_example_locked. Qed.
+
+(* and not trivial: with writeLock missing from the timed flush alone (every other site still
+   locks) the same programs under the same schedule put more bytes on the wire than the
+   frames have, and the pump dies on a short write *)
+Theorem C07_timed_flush_without_lock_breaks :
+  exists progs sched,
+    let s := wrun locks_but_timed (winit progs) sched in
+    (forall t, t_jobs (w_threads s t) = []) /\ w_buf s = [] /\ w_lock s = None /\
+    w_wire s <> List.concat (map snd (w_log s)) /\
+    (List.length (w_wire s) > List.length (List.concat (map snd (w_log s))))%nat /\
+    t_failed (w_threads s 0%nat) = true.
+Proof. exact ConnWriter_timed_flush_unlocked_refuted. Qed.
+Print Assumptions C07_timed_flush_without_lock_breaks.
+
+(* every use of a client connection's writer in package nsqd today: the IDENTIFY-time set-up
+   (each function locks for its whole body), clientV2.Flush (no lock of its own: its callers
+   are the next four lines), Send, and the two flushes of messagePump -- all under writeLock *)
+Theorem C07_source_write_lock_discipline :
+  wl_sites =
+  [("SetOutputBuffer", "c.Writer", "if desiredSize != 0", true);
+   ("SetOutputBuffer", "c.Writer", "if desiredSize != 0", true);
+   ("UpgradeTLS", "c.Writer", "", true);
+   ("UpgradeDeflate", "c.flateWriter", "", true);
+   ("UpgradeDeflate", "c.Writer", "", true);
+   ("UpgradeSnappy", "c.Writer", "", true);
+   ("Flush", "c.Writer", "", false);
+   ("Flush", "c.flateWriter", "", false);
+   ("Flush", "c.flateWriter", "if c.flateWriter != nil", false);
+   ("Send", "client.Writer", "", true);
+   ("Send", "client.Flush", "if frameType != frameTypeMessage", true);
+   ("messagePump", "client.Flush", "if subChannel == nil || !client.IsReadyForMessages()", true);
+   ("messagePump", "client.Flush", "case <-flusherChan", true)]%string /\
+  src_locks site_send = true /\ src_locks site_flush_notready = true /\ src_locks site_flush_timed = true /\
+  src_others_ok = true.
+Proof. exact ConnWriter_source_discipline. Qed.
+Print Assumptions C07_source_write_lock_discipline.
